@@ -69,7 +69,7 @@ def eval_expr(e, sigma):
     return {"+": x + y, "-": max(x - y, 0), "*": x * y, "//": x // max(y, 1), "min": min(x, y), "max": max(x, y)}[k]
 
 
-def gen_case(alpha, rng, maxp=5, with_sym=True):
+def gen_case(alpha, rng, maxp=5, with_sym=True, symp=.12):
     n = rng.choice([1, 2, 2, 2, 3, 3, 4, 5][: 3 + maxp])
     n = min(n, maxp)
     sigma = {"a": rng.randint(1, 3), "b": rng.randint(1, 3), "*v": [rng.randint(1, 3) for _ in range(rng.randint(0, 2))]}
@@ -80,7 +80,7 @@ def gen_case(alpha, rng, maxp=5, with_sym=True):
     use_axis_names = rng.random() < .3
     for i in range(n):
         toks = rng.choice(alpha["alphabet"])
-        if with_sym and i > 0 and rng.random() < .12:
+        if with_sym and i > 0 and rng.random() < symp:
             toks = rng.choice(alpha["sym"])
         params.append({"nm": pool[i] if (use_axis_names and i < len(pool)) else f"x{i}", "toks": toks})
         r = rng.random()
@@ -101,6 +101,19 @@ def gen_case(alpha, rng, maxp=5, with_sym=True):
     return {"params": params, "shapes": shapes, "hasret": hasret, "rettoks": rettoks, "retshape": retshape, "args": {}}
 
 
+def gen_history_case(alpha, rng):
+    """a binder parameter and a parameter whose symbolic axis depends on it, instantiated INCONSISTENTLY; the
+    sibling family over the binder's axis then contains the one call that is consistent (history dependence:
+    an earlier rejection must not be replayed)"""
+    k, k2 = rng.sample([1, 2, 3, 4, 5], 2)
+    sym = rng.choice([s for s in alpha["sym"] if any(t["base"]["k"] == "sym" and '"a"' in json.dumps(t["base"]["e"]) and
+                                                      '"b"' not in json.dumps(t["base"]["e"]) for t in s)])
+    binder = [{"mods": [], "base": {"k": "ident", "nm": "a", "v": 0, "e": []}}]
+    params = [{"nm": "x0", "toks": binder}, {"nm": "x1", "toks": sym}]
+    shapes = [[k], instantiate(sym, {"a": k2, "b": 1, "*v": []}, rng)]
+    return {"params": params, "shapes": shapes, "hasret": False, "rettoks": [], "retshape": [], "args": {}, "_vary": (0, 0)}
+
+
 def sibling(case, rng):
     """same signature (same function objects, same array objects for the untouched parameters), one
     parameter or the result with another shape: earlier calls must not influence later ones"""
@@ -117,6 +130,27 @@ def sibling(case, rng):
     elif c["hasret"]:
         c["retshape"] = other(c["retshape"])
     return c
+
+
+def sibling_family(case, rng):
+    """all variations of ONE axis size of ONE parameter (sizes 1..5): among them is the one that repairs (or
+    breaks) the call, with every other argument object reused"""
+    c0 = {k: v for k, v in case.items() if k not in ("variants", "id", "_vary")}
+    cands = [j for j, s in enumerate(c0["shapes"]) if s]
+    if not cands:
+        return [sibling(case, rng)]
+    if "_vary" in case:
+        j, ax = case["_vary"]
+    else:
+        j = rng.choice(cands)
+        ax = rng.randrange(len(c0["shapes"][j]))
+    out = []
+    for v in range(1, 6):
+        if v != c0["shapes"][j][ax]:
+            c = json.loads(json.dumps(c0))
+            c["shapes"][j][ax] = v
+            out.append(c)
+    return out
 
 
 def worker(args):
